@@ -354,6 +354,55 @@ func genDoc(o DocOpts) *rapid.Generator[Doc] {
 	return rapid.Custom(func(t *rapid.T) Doc {
 		var d Doc
 		d.Insts = rapid.SliceOfN(genInst(o), 1, o.MaxInsts).Draw(t, "insts")
+		// restatements: a later instance sets a value that is already in force (section heads do that)
+		if len(d.Insts) > 1 && coin(t, "restate", 30) {
+			var bpm *int
+			var vel, key *string
+			var meter *Frac
+			var txt map[string]string
+			for i := range d.Insts {
+				in := &d.Insts[i]
+				if i > 0 && coin(t, "restate-here", 35) {
+					if in.BPM != nil && bpm != nil {
+						v := *bpm
+						in.BPM = &v
+					}
+					if in.Meter != nil && meter != nil {
+						v := *meter
+						in.Meter = &v
+					}
+					if in.Key != nil && key != nil {
+						v := *key
+						in.Key = &v
+					}
+					if in.Vel != nil && vel != nil {
+						v := *vel
+						in.Vel = &v
+					}
+					if in.Txt != nil && txt != nil {
+						in.Txt = map[string]string{}
+						for k, v := range txt {
+							in.Txt[k] = v
+						}
+					}
+				}
+				if in.BPM != nil {
+					bpm = in.BPM
+				}
+				if in.Meter != nil {
+					meter = in.Meter
+				}
+				if in.Key != nil {
+					key = in.Key
+				}
+				if in.Vel != nil {
+					vel = in.Vel
+				}
+				if in.Txt != nil {
+					txt = in.Txt
+				}
+			}
+		}
 		hasChord := false
 		for _, in := range d.Insts {
 			if in.Chord != nil {
